@@ -178,6 +178,7 @@ impl Unifiable {
                         None
                     },
                     Unifiable::LogicVar{id: _, name: _} => { other.unify(&self, ss) },
+                    Unifiable::SFunction{name: _, terms: _} => { other.unify(&self, ss) },
                     Unifiable::Anonymous => { return Some(Rc::clone(ss)); },
                     _ => None,
                 }
@@ -189,6 +190,7 @@ impl Unifiable {
                         None
                     },
                     Unifiable::LogicVar{id: _, name: _} => { other.unify(&self, ss) },
+                    Unifiable::SFunction{name: _, terms: _} => { other.unify(&self, ss) },
                     Unifiable::Anonymous => { return Some(Rc::clone(ss)); },
                     _ => None,
                 }
@@ -200,6 +202,7 @@ impl Unifiable {
                         None
                     },
                     Unifiable::LogicVar{id: _, name: _} => { other.unify(&self, ss) },
+                    Unifiable::SFunction{name: _, terms: _} => { other.unify(&self, ss) },
                     Unifiable::Anonymous => { return Some(Rc::clone(ss)); },
                     _ => None,
                 }
@@ -297,6 +300,9 @@ impl Unifiable {
                     Unifiable::LogicVar{id: _, name: _} => {
                         return other.unify(self, ss);
                     },
+                    Unifiable::SFunction{name: _, terms: _} => {
+                        return other.unify(self, ss);
+                    },
                     Unifiable::Anonymous => { return Some(Rc::clone(ss)); },
                     _ => None,
                 }
@@ -368,6 +374,9 @@ impl Unifiable {
 
                     }, // SLinkedList
                     Unifiable::LogicVar{id: _, name: _} => {
+                        return other.unify(self, ss);
+                    },
+                    Unifiable::SFunction{name: _, terms: _} => {
                         return other.unify(self, ss);
                     },
                     Unifiable::Anonymous => { return Some(Rc::clone(ss)); },
